@@ -94,7 +94,8 @@ _saved = []  # (obj, attr, original)
 
 
 def _patch(obj, attr, new):
-    _saved.append((obj, attr, obj.__dict__.get(attr, getattr(obj, attr))))
+    d = getattr(obj, "__dict__", None)
+    _saved.append((obj, attr, d[attr] if d is not None and attr in d else getattr(obj, attr)))
     setattr(obj, attr, new)
 
 
@@ -202,6 +203,7 @@ def refine_for_replay(ctx):
             for lo, hi, w in _W_CLASSES:
                 alts.append(z3.And(a >= lo, a <= hi, W(a) == w))
             extra.append(z3.Or(*alts))
+    extra += text.dbcs_refine(ctx)
     alts = [extra]
     for hook in _refiners:
         e = hook(ctx)
@@ -458,3 +460,45 @@ def mk_text(I, kind, cps):
     if I.symbolic:
         return SymText(kind, cps)
     return bytes(cps) if kind == "bytes" else "".join(chr(c) for c in cps)
+
+
+# ------------------------------------------------------------------------------------------------------------
+# a Screen whose start-up is bypassed and whose output is collected (C04, C05, C12)
+
+
+def make_screen(I=None):
+    import io
+
+    from urwid.display import _raw_display_base
+
+    class StubScreen(_raw_display_base.Screen):
+        def __init__(self):
+            super().__init__(io.StringIO(), io.StringIO())
+            self.out = []
+            self._started = True
+
+        def _start(self, alternate_buffer=True):
+            self._started = True
+
+        def _stop(self):
+            self._started = False
+
+        def hook_event_loop(self, event_loop, callback):
+            pass
+
+        def unhook_event_loop(self, event_loop):
+            pass
+
+        def _read_raw_input(self, timeout):
+            return []
+
+        def write(self, data):
+            self.out.append(data)
+
+        def flush(self):
+            pass
+
+        def get_cols_rows(self):
+            return (80, 24)
+
+    return StubScreen()
